@@ -29,6 +29,7 @@ def run(ctx):
     vlib.tlc_mc(ctx, "MCCluster", ctx.pick("Cluster_mc_q.cfg", "Cluster_mc.cfg"), coverage=ctx.thorough, heap="20g", timeout=3000)
     if ctx.thorough:
         vlib.tlc_mc(ctx, "MCCluster", "Cluster_mc_t3.cfg", coverage=False, heap="24g", timeout=6000)
+        vlib.tlc_mc(ctx, "MCCluster", "Cluster_mc_restart.cfg", coverage=False, heap="16g", timeout=3000)   # + one node restart (volatile state lost)
     for sw in ("UpgradeStrong", "VerifyQuorum", "StrongThroughLog") + (("RecheckTerm",) if ctx.thorough else ()):
         vlib.tlc_neg(ctx, "MCCluster", "Cluster_neg_%s.cfg" % sw, expect="ReadLin", heap="16g", timeout=3000)
     tr = os.path.join(ctx.scratch, "cluster.ndjson")
